@@ -430,8 +430,9 @@ struct ColumnsCase
   bool rank = false;
   std::vector<std::string> names;
   std::vector<int> locType; // -1 unknown, else ELoc value
+  std::vector<int> locOrder; // rank among the columns of the same type is taken in this order (a permutation of the columns)
   std::vector<double> vals; // by column
-  template<class A> void io(A& a) { a("nech", nech)("rank", rank)("names", names)("locType", locType)("vals", vals); }
+  template<class A> void io(A& a) { a("nech", nech)("rank", rank)("names", names)("locType", locType)("locOrder", locOrder)("vals", vals); }
   int ncol() const { return (int)names.size(); }
 };
 // locators are drawn over all ELoc values (each multiple type gets consecutive indices in column order)
@@ -458,21 +459,33 @@ static void genColumns(ColumnsCase& c, int nech, int ncolMin, int ncolMax, int n
     bool isSel = (t == 10);
     for (int i = 0; i < nech; i++) c.vals.push_back(isSel ? (double)G::i(0, 1) : genVal(naPct));
   }
+  // item numbers of a locator type need not follow the column order (z2 may come before z1)
+  if (G::pct(50)) c.locOrder = G::perm(ncol);
+  else for (int k = 0; k < ncol; k++) c.locOrder.push_back(k);
 }
 static void applyLocators(Db* db, const ColumnsCase& c, int firstCol)
 {
+  // item number of each column: its rank, in the generated order, among the columns of the same type
   std::map<int, int> next;
-  for (int k = 0; k < c.ncol(); k++)
+  std::vector<int> idx((size_t)c.ncol(), 0);
+  std::vector<int> order = c.locOrder;
+  std::vector<int> seen((size_t)c.ncol(), 0);
+  std::vector<int> clean;
+  for (int k : order) if (k >= 0 && k < c.ncol() && !seen[(size_t)k]) { seen[(size_t)k] = 1; clean.push_back(k); }
+  for (int k = 0; k < c.ncol(); k++) if (!seen[(size_t)k]) clean.push_back(k); // (shrunk / edited cases)
+  for (int k : clean)
   {
     int t = c.locType[(size_t)k];
-    if (t < 0)
-    {
-      db->setLocatorByColIdx(firstCol + k, ELoc::UNKNOWN, 0);
-      continue;
-    }
-    int idx = locUnique(t) ? 0 : next[t]++;
-    db->setLocatorByColIdx(firstCol + k, ELoc::fromValue(t), idx);
+    if (t >= 0) idx[(size_t)k] = locUnique(t) ? 0 : next[t]++;
   }
+  // items are declared in increasing item number so that no hole ever exists in a locator list
+  for (int pass = 0; pass < c.ncol(); pass++)
+    for (int k = 0; k < c.ncol(); k++)
+    {
+      int t = c.locType[(size_t)k];
+      if (t < 0) { if (pass == 0) db->setLocatorByColIdx(firstCol + k, ELoc::UNKNOWN, 0); continue; }
+      if (idx[(size_t)k] == pass) db->setLocatorByColIdx(firstCol + k, ELoc::fromValue(t), pass);
+    }
 }
 static bool colsNonTrivial(const ColumnsCase& c)
 {
